@@ -57,7 +57,7 @@ PROPS['C04'] = dict(
 
 PROPS['C01'] = dict(
   level='proof',
-  verus=[dict(unit='ops', min_functions=20), dict(unit='native', min_functions=3), dict(unit='retops', min_functions=1), dict(unit='mapops', min_functions=1), dict(unit='iterops', min_functions=2), dict(unit='launchops', min_functions=1), dict(unit='funcc', min_functions=1), dict(unit='compilerd', min_functions=2)],
+  verus=[dict(unit='ops', min_functions=20), dict(unit='native', min_functions=3), dict(unit='retops', min_functions=1), dict(unit='mapops', min_functions=1), dict(unit='iterops', min_functions=2), dict(unit='launchops', min_functions=1), dict(unit='funcc', min_functions=1), dict(unit='compilerd', min_functions=2), dict(unit='forc', min_functions=1)],
   kani=[dict(crate='front', harnesses=['proofs::o01_p_infix_table', 'proofs::o01_p_higher', 'proofs::o01_p_prefix_table'], kind='complete', assumption_ids=['A-kani']),
         dict(crate='value', harnesses=['proofs::o14_6_falsey', 'proofs::o14_3_num_eq_ieee'], features='', kind='complete', assumption_ids=['A-kani']),
         dict(crate='value', harnesses=['proofs::o14_6_falsey', 'proofs::o14_3_num_eq_ieee'], features='nan_boxing', kind='complete', assumption_ids=['A-kani'])],
@@ -67,7 +67,7 @@ PROPS['C01'] = dict(
 )
 PROPS['C02'] = dict(
   level='proof',
-  verus=[dict(unit='ops', min_functions=8), dict(unit='captures', min_functions=3), dict(unit='resolverd', min_functions=1), dict(unit='catchd', min_functions=1), dict(unit='limitsc', min_functions=2), dict(unit='resolvevar', min_functions=9), dict(unit='varcomp', min_functions=5), dict(unit='resolvestmt', min_functions=5), dict(unit='funcc', min_functions=1)],
+  verus=[dict(unit='ops', min_functions=8), dict(unit='captures', min_functions=3), dict(unit='resolverd', min_functions=1), dict(unit='catchd', min_functions=1), dict(unit='limitsc', min_functions=2), dict(unit='resolvevar', min_functions=9), dict(unit='varcomp', min_functions=5), dict(unit='resolvestmt', min_functions=5), dict(unit='funcc', min_functions=1), dict(unit='forc', min_functions=1)],
   explanation='the VM half only: the box / capture handlers and op_closure; the resolver and compiler half of the capture protocol is outside reach',
   not_decided=['which variables the resolver marks as captured, which CaptureIndex operands the compiler emits (resolve_capture / add_capture), fresh variables per loop iteration / call as a COMPILER property (EmptyBox / Box placement), name resolution (innermost declaration)',
                'A-shape preconditions of the handlers: a Local operand names a frame slot that holds a box, an Enclosing operand an existing capture; A-enc: the capture operand decodes to what the encoder wrote'],
